@@ -4,6 +4,7 @@
   never a default value.
 -/
 import LiquidModel.Model.Render
+import LiquidModel.Model.CondParse
 namespace Liquid.Codec
 open Liquid
 
@@ -157,6 +158,19 @@ partial def pCond : P Cond := do
   | "Ce" => Cond.exist <$> pExpr
   | "Ca" => do let a ← pCond; let b ← pCond; pure (.and a b)
   | "Co" => do let a ← pCond; let b ← pCond; pure (.or a b)
+  | "Cf" => do
+    -- flat token list as written in the source: grouped by the model of `parse_condition`
+    let items ← many (do
+      match (← tok) with
+      | "&" => pure [CTok.and_]
+      | "|" => pure [CTok.or_]
+      | "a" => do
+        match (← pCond) with
+        | .bin l o r => pure [CTok.val l, CTok.cmp o, CTok.val r]
+        | .exist e => pure [CTok.val e]
+        | _ => failure
+      | _ => failure)
+    liftO (parseCondition items.flatten)
   | _ => failure
 
 def pRange : P RangeE := do
